@@ -128,6 +128,15 @@ def configs(tier, seed):
             for pt, p in _phases(tier, seed, rmax):
                 out.append({'part': 'exact', 'shape': 'ellipse', 'rx': rx, 'ry': ry, 'theta': th, 'phase': list(p),
                             'ptype': pt, 'mode': 'window' if rmax >= 1000.0 else 'grid'})
+    # nearly round ellipses (axes differing by 1e-7 .. 1e-4 relative): a shortcut that treats "almost equal" axes as
+    # a circle would be invisible on exactly round and on clearly elongated ellipses
+    for rx in (1.5, 10.5, 15.0):
+        for eps in (2e-7, 9e-6, 1e-4):
+            for (a, b) in ((rx, rx * (1 + eps)), (rx * (1 + eps), rx)):
+                for th in (0.0, math.pi / 6, 1.0):
+                    for pt, p in _phases(tier, seed, 64.0)[:3]:
+                        out.append({'part': 'exact', 'shape': 'ellipse', 'rx': a, 'ry': b, 'theta': th, 'phase': list(p),
+                                    'ptype': pt, 'mode': 'grid'})
     if tier == 'thorough':
         big = [{'shape': 'circle', 'r': 1000.0, 'phase': list(GENERIC[0]), 'ptype': 'generic'},
                {'shape': 'ellipse', 'rx': 1000.0, 'ry': 1000.0, 'theta': 1.0, 'phase': [0.5, 0.5], 'ptype': 'nice'},
